@@ -45,13 +45,14 @@ def geom(name, tree='T1', nfree=6, window_mid=False, bounds=None, info=None):
     P = {
         'G16a': dict(fat32=False, clusters=4090, bpc=1, nfats=2, root_entries=32, lba=8, slot=0, ptype=6, total16=True),
         'G16b': dict(fat32=False, clusters=4094, bpc=1, nfats=1, root_entries=16, lba=63, slot=1, ptype=0x0E),
-        'G16c': dict(fat32=False, clusters=4200, bpc=8, nfats=2, root_entries=16, lba=100, slot=2, ptype=4),
+        'G16c': dict(fat32=False, clusters=4200, bpc=8, nfats=2, root_entries=16, lba=100, slot=2, ptype=4, extra_tail=5, fat_extra=2, part_extra=10),
         'G16d': dict(fat32=False, clusters=4085, bpc=128, nfats=2, root_entries=32, lba=8, slot=0, ptype=6, reserved=4),
         'G16e': dict(fat32=False, clusters=65524, bpc=2, nfats=2, root_entries=32, lba=8, slot=0, ptype=6),
         'G32a': dict(fat32=True, clusters=65525, bpc=1, nfats=2, lba=8, slot=0, ptype=0x0C, reserved=32),
         'G32b': dict(fat32=True, clusters=65662, bpc=1, nfats=1, lba=2048, slot=3, ptype=0x0B, reserved=32, root_cluster=5, info_free='unknown'),
-        'G32c': dict(fat32=True, clusters=70000, bpc=8, nfats=2, lba=8, slot=0, ptype=0x0C, reserved=32),
+        'G32c': dict(fat32=True, clusters=70000, bpc=8, nfats=2, lba=8, slot=0, ptype=0x0C, reserved=32, extra_tail=7, fat_extra=3),
         'G32d': dict(fat32=True, clusters=65600, bpc=128, nfats=2, lba=8, slot=0, ptype=0x0C, reserved=34, fsinfo=2),
+        'G16g': dict(fat32=False, clusters=4300, bpc=2, nfats=2, root_entries=100, lba=20, slot=1, ptype=6, extra_tail=1),
         'G16f': dict(fat32=False, clusters=4100, bpc=2, nfats=2, root_entries=32, lba=8, slot=0, ptype=6),
         'G32f': dict(fat32=True, clusters=65600, bpc=2, nfats=2, lba=8, slot=0, ptype=0x0C, reserved=32),
         'G32e': dict(fat32=True, clusters=70000, bpc=1, nfats=1, lba=8, slot=0, ptype=0x0C, reserved=32),
@@ -137,7 +138,7 @@ def scripted():
         H.append(h)
 
     # S1: the regression shapes of C01 on several geometries
-    for gname in ['G16a', 'G32a', 'G16c', 'G32b']:
+    for gname in ['G16a', 'G32a', 'G16c', 'G32b', 'G16g']:
         img = image_of(gname, tree='T1', nfree=8)
         upc = img[1]
         upb = len(img[2])
@@ -213,7 +214,7 @@ def scripted():
         add('S2-' + gname, img, ops, upc)
 
     # S3: fill to exactly full and back, twice; delete of multi-cluster files; truncate 1/2/many
-    for gname, nfree in [('G16a', 4), ('G16b', 4), ('G32a', 5), ('G32b', 4), ('G16c', 3)]:
+    for gname, nfree in [('G16a', 4), ('G16b', 4), ('G32a', 5), ('G32b', 4), ('G16c', 3), ('G16g', 3), ('G32c', 3)]:
         img = image_of(gname, tree='T0', nfree=nfree, info=dict(info_free='unknown') if gname == 'G32b' else None)
         upc = img[1]
         ops = prologue()
@@ -239,7 +240,11 @@ def scripted():
     ops = prologue() + [x for i in range(17) for x in (O('open_file', d='d0', name='N%02d.TXT' % i, mode='Create', as_='f0'), O('close_file', f='f0'))]
     ops += [O('mkdir', d='d0', name='MORE'), O('delete', d='d0', name='N03.TXT'), O('mkdir', d='d0', name='SUBD'),
             O('open_dir', d='d0', name='SUBD', as_='d1')]
-    ops += [x for i in range(15) for x in (O('open_file', d='d1', name='M%02d.TXT' % i, mode='Create', as_='f0'), O('close_file', f='f0'))]
+    for i in range(15):
+        ops += [O('open_file', d='d1', name='M%02d.TXT' % i, mode='Create', as_='f0'), O('close_file', f='f0')]
+        if i == 13:
+            # the directory cluster is exactly full: no end marker anywhere in it
+            ops += [O('iterate', d='d1'), O('lookup_all', d='d1'), O('find', d='d1', name='NOPE.TXT'), O('iterate_lfn', d='d1')]
     ops += [O('iterate', d='d1'), O('lookup_all', d='d1'), O('lookup_all', d='d0'), O('close_dir', d='d1')] + epilogue()
     add('S4-G16b', img, ops, img[1])
     img = image_of('G32a', tree='T0', nfree=5)
@@ -281,10 +286,12 @@ def scripted():
     # S6: the mode x state matrix of C07 (also after delete-and-recreate), invalid names
     for gname in ['G16a', 'G32a']:
         img = image_of(gname, tree='T2', nfree=6)
+        # files with the hidden / system bits (writable) and a hidden read-only one, a zero-length file that owns a cluster
+        img[0]['vols'][0]['root'] += [f('HIDSYS.DAT', attr=0x26), f('HIDRO.DAT', attr=0x23)]
         ops = prologue() + [O('open_dir', d='d0', name='SUB', as_='d1')]
         modes = ['ReadOnly', 'Append', 'Truncate', 'Create', 'CreateOrTruncate', 'CreateOrAppend']
         k = 0
-        for target, dirv in [('MISSING.X', 'd0'), ('A.TXT', 'd0'), ('RO.TXT', 'd1'), ('SUB', 'd0'), ('EMPTY.DAT', 'd0')]:
+        for target, dirv in [('MISSING.X', 'd0'), ('A.TXT', 'd0'), ('RO.TXT', 'd1'), ('SUB', 'd0'), ('EMPTY.DAT', 'd0'), ('HIDSYS.DAT', 'd0'), ('HIDRO.DAT', 'd0'), ('ZC.DAT', 'd1'), ('.', 'd1'), ('..', 'd1')]:
             for m in modes:
                 ops += [O('open_file', d=dirv, name=target, mode=m, as_='t%d' % k), O('write', f='t%d' % k, n=1), O('close_file', f='t%d' % k)]
                 if target == 'MISSING.X':
@@ -359,6 +366,9 @@ def scripted():
                             O('close_file', f='fb2'),
                             O('open_file', d='d0', name='C.TXT', mode='Create', as_='fc'), O('write', f='fc', n=upc), O('close_file', f='fc'),
                             O('open_file', d='d0', name='B.TXT', mode='CreateOrTruncate', as_='fb3'), O('write', f='fb3', n=2 * upc), O('close_file', f='fb3'),
+                            # truncated, touched by an empty write only, closed: an empty file that owned clusters
+                            O('open_file', d='d0', name='C.TXT', mode='Truncate', as_='fc2'), O('write', f='fc2', n=0), O('flush', f='fc2'), O('close_file', f='fc2'),
+                            O('open_file', d='d0', name='D.TXT', mode='Create', as_='fd'), O('write', f='fd', n=1), O('close_file', f='fd'),
                             O('open_file', d='d0', name='B.TXT', mode='ReadOnly', as_='fb4'), O('read', f='fb4', n=2 * upc + 1), O('close_file', f='fb4')] + epilogue()
         add('S12-' + gname, img, ops, upc)
 
@@ -393,6 +403,62 @@ def scripted():
                         O('open_file', d='d1', name='X.DAT', mode='Create', as_='f1'), O('write', f='f1', n=2), O('close_file', f='f1'), O('iterate', d='d1'), O('lookup_all', d='d1'),
                         O('open_dir', d='d1', name='.', as_='d2'), O('iterate', d='d2'), O('close_dir', d='d2'), O('close_dir', d='d1'), O('iterate', d='d0'), O('lookup_all', d='d0')] + epilogue()
     add('S14-G32e-new', (dict(vols=[v]), upc, bounds), ops, upc)
+
+    # S15: the first write through a handle does not fit (partial progress, then out of space); flush / close afterwards
+    for gname in ['G16a', 'G32a', 'G16c', 'G32b']:
+        img = image_of(gname, tree='T0', nfree=3)
+        upc = img[1]
+        ops = prologue() + [O('open_file', d='d0', name='BIG.BIN', mode='Create', as_='f0'), O('write', f='f0', n=4 * upc + 1), O('flush', f='f0'), O('length', f='f0'),
+                            O('seek_start', f='f0', u=0), O('read', f='f0', n=5 * upc),
+                            O('open_file', d='d0', name='EMPTY1.BIN', mode='Create', as_='x1'), O('close_file', f='x1'),   # later writes elsewhere: what was flushed must stay
+                            O('close_file', f='f0'), O('mkdir', d='d0', name='LATER'),
+                            O('open_file', d='d0', name='BIG.BIN', mode='ReadOnly', as_='f1'), O('read', f='f1', n=5 * upc), O('close_file', f='f1'),
+                            O('delete', d='d0', name='BIG.BIN'),
+                            O('open_file', d='d0', name='K.BIN', mode='Create', as_='f2'), O('write', f='f2', n=upc), O('close_file', f='f2'),
+                            O('open_file', d='d0', name='K.BIN', mode='Append', as_='f3'), O('write', f='f3', n=3 * upc), O('close_file', f='f3'),
+                            O('open_file', d='d0', name='L.BIN', mode='Create', as_='f4'), O('write', f='f4', n=1), O('close_file', f='f4')] + epilogue()
+        add('S15-' + gname, img, ops, upc)
+
+    # S16: FAT32, mkdir when the parent has no free slot and only one cluster is free: the new directory's cluster is taken
+    # and given back; the stored free count must not drift
+    for gname, info in [('G32a', dict(info_free='correct', info_next='first')), ('G32b', dict(info_free='correct', info_next='first'))]:
+        img = image_of(gname, tree='T0', nfree=2, info=info)
+        upc = img[1]
+        ops = prologue()
+        for i in range(16):
+            ops += [O('open_file', d='d0', name='N%02d.TXT' % i, mode='Create', as_='n%d' % i), O('close_file', f='n%d' % i)]
+        ops += [O('open_file', d='d0', name='N00.TXT', mode='Append', as_='g'), O('write', f='g', n=1), O('close_file', f='g'),
+                O('mkdir', d='d0', name='NODIR'), O('mkdir', d='d0', name='NODIR2'), O('open_file', d='d0', name='N01.TXT', mode='Append', as_='g2'), O('write', f='g2', n=1), O('flush', f='g2'),
+                O('close_file', f='g2'), O('delete', d='d0', name='N00.TXT'), O('mkdir', d='d0', name='NOW')] + epilogue()
+        add('S16-' + gname, img, ops, upc)
+
+    # S17: a new directory on volumes with several blocks per cluster, filled beyond its first block(s): every block of the
+    # (previously used, poisoned) cluster must have been wiped
+    for gname in ['G16f', 'G32f', 'G16c', 'G16g']:
+        img = image_of(gname, tree='T0', nfree=4, bounds=[0, 256])
+        bpc = img[0]['vols'][0]['bpc']
+        ops = prologue() + [O('mkdir', d='d0', name='FULL'), O('open_dir', d='d0', name='FULL', as_='d1')]
+        for i in range(16 * bpc - 2 if bpc <= 2 else 16 * (bpc - 1) + 1):
+            ops += [O('open_file', d='d1', name='E%03d.X' % i, mode='Create', as_='e%d' % i), O('close_file', f='e%d' % i)]
+        ops += [O('iterate', d='d1'), O('lookup_all', d='d1'), O('close_dir', d='d1')] + epilogue()
+        add('S17-' + gname, img, ops, img[1])
+
+    # S18: names whose first character is U+00E5 (stored as 0x05: 0xE5 marks a deleted entry)
+    for gname in ['G16a', 'G32a']:
+        img = image_of(gname, tree='T1', nfree=4)
+        img[0]['vols'][0]['root'] += [f('\u00e5X.DAT', [20], 1)]
+        img[0]['vols'][0]['window'] = sorted(set(img[0]['vols'][0]['window'] + [20]))
+        ops = prologue() + [O('iterate', d='d0'), O('lookup_all', d='d0'), O('find', d='d0', name='\u00e5X.DAT'),
+                            O('open_file', d='d0', name='\u00e5X.DAT', mode='ReadOnly', as_='f0'), O('read', f='f0', n=2), O('close_file', f='f0'),
+                            O('open_file', d='d0', name='\u00e5B.TXT', mode='Create', as_='f1'), O('write', f='f1', n=2), O('close_file', f='f1'),
+                            O('iterate', d='d0'), O('lookup_all', d='d0'), O('find', d='d0', name='\u00e5B.TXT'),
+                            O('open_file', d='d0', name='\u00e5B.TXT', mode='Create', as_='f2'),          # exists
+                            O('open_file', d='d0', name='\u00e5B.TXT', mode='CreateOrAppend', as_='f3'), O('write', f='f3', n=1), O('close_file', f='f3'),
+                            O('mkdir', d='d0', name='\u00e5B.TXT'), O('mkdir', d='d0', name='\u00e5DIR'), O('mkdir', d='d0', name='\u00e5DIR'),
+                            O('open_dir', d='d0', name='\u00e5DIR', as_='d1'), O('iterate', d='d1'), O('close_dir', d='d1'),
+                            O('delete', d='d0', name='\u00e5X.DAT'), O('find', d='d0', name='\u00e5X.DAT'), O('iterate', d='d0'), O('lookup_all', d='d0'),
+                            O('delete', d='d0', name='\u00e5B.TXT'), O('iterate', d='d0')] + epilogue()
+        add('S18-' + gname, img, ops, img[1])
 
     # S7: several volumes at once
     img = image_multi()
@@ -711,6 +777,10 @@ def mount_geometries(seed, quick):
         else:
             v['root_entries'] = [16, 32, 112, 512, 17, 500, 225, 33][k % 8] if k % 2 else rng.choice([16, 32, 112, 512, 17, 500, 225, 33])
             v['total16'] = rng.random() < 0.5
+        # blocks behind the last whole cluster, FAT sectors beyond the needed ones, a partition longer than the volume
+        v['extra_tail'] = rng.choice([0, bpc - 1, bpc // 2]) if bpc > 1 else 0
+        v['fat_extra'] = rng.choice([0, 0, 1, 5])
+        v['part_extra'] = rng.choice([0, 0, 100])
         low = [c for c in range(2, 30) if c != v.get('root_cluster')][:6]
         root, used = tree_T1(low, bpc)
         v['window'] = sorted(set(low[:used] + [clusters + 1] + ([v['root_cluster']] if fat32 else [])))
@@ -779,4 +849,10 @@ def fault_histories(seed, quick):
         ops += [x for i in range(15 if img[0]['vols'][0]['bpc'] == 1 else 3) for x in (O('open_file', d='d1', name='M%02d' % i, mode='Create', as_='g%d' % i), O('close_file', f='g%d' % i))]
         ops += [O('open_file', d='d1', name='BIG', mode='Create', as_='f0'), O('write', f='f0', n=3 * upc), O('close_file', f='f0'), O('delete', d='d1', name='BIG')]
         add('FG-' + gname, img, ops)
+        # the last free cluster is taken by a write that succeeds (the search for the next free cluster wraps around and finds none)
+        img = image_of(gname, tree='T0', nfree=2)
+        ops = prologue() + [O('open_file', d='d0', name='A.BIN', mode='Create', as_='f0'), O('write', f='f0', n=upc), O('close_file', f='f0'),
+                            O('open_file', d='d0', name='B.BIN', mode='Create', as_='f1'), O('write', f='f1', n=upc), O('write', f='f1', n=1), O('close_file', f='f1'),
+                            O('delete', d='d0', name='A.BIN'), O('mkdir', d='d0', name='LASTD')]
+        add('FL-' + gname, img, ops)
     return H
